@@ -534,6 +534,17 @@ impl Case {
     pub fn has_stream(&self) -> bool {
         matches!(self.fin, PFinal::Into(_)) || self.steps.iter().any(|s| matches!(s, Step::Stream(_)))
     }
+    /// every session: no flush, a chunk buffer of at least 64 bytes, at most 24 bytes written in all
+    pub fn stream_timing_free(&self) -> bool {
+        let ok = |s: &Session| s.size >= 64 && s.written() <= 24 && !s.ops.iter().any(|o| matches!(o, SOp::Flush));
+        self.steps.iter().all(|st| match st {
+            Step::Stream(s) => ok(s),
+            _ => true,
+        }) && match &self.fin {
+            PFinal::Into(s) => ok(s),
+            _ => true,
+        }
+    }
     pub fn has_image_op(&self) -> bool {
         self.has_stream() || self.steps.iter().any(|s| matches!(s, Step::Image(_)))
     }
@@ -830,7 +841,17 @@ impl Shadow {
         let (w, h) = self.dims();
         (row_bytes(self.color, self.depth, w) as u128 * h as u128).min(usize::MAX as u128) as usize
     }
-    fn bump(&mut self) {
+    /// the frame header of the next image went out (`write_image_data`, `StreamWriter::new`, `new_frame`):
+    /// an fcTL — unless it is the separate default image — counts in `animation_written`
+    pub fn header_written(&mut self) {
+        if self.fc.is_some() && !(self.sep && self.images_written == 0) {
+            self.anim_written += 1;
+        }
+    }
+    /// an image is complete (`increment_images_written`): by `write_image_data` or by `finish_image` of the
+    /// stream writer (repaired d0d021f..9136341: stream images are counted when their last row is written)
+    pub fn image_done(&mut self) {
+        self.images_ok += 1;
         self.images_written += 1;
         if let Some(n) = self.frames {
             if n <= self.anim_written {
@@ -840,11 +861,8 @@ impl Shadow {
     }
     /// a successful `write_image_data`
     pub fn whole_image_done(&mut self) {
-        if self.fc.is_some() && !(self.sep && self.images_written == 0) {
-            self.anim_written += 1;
-        }
-        self.images_ok += 1;
-        self.bump();
+        self.header_written();
+        self.image_done();
     }
 }
 
@@ -855,25 +873,32 @@ pub struct StreamShadow {
     pub cur_done: usize,
     pub complete: u64,
     pub total: usize,
+    /// (bytes, bytes per row) of every image the session started
+    pub started: Vec<(usize, usize)>,
 }
 
 impl StreamShadow {
-    pub fn start(sh: &Shadow) -> StreamShadow {
-        StreamShadow { sfc: sh.fc, cur_size: sh.image_size(), cur_done: 0, complete: 0, total: 0 }
+    /// a successful `StreamWriter::new`: the header of the first image of the session is written at once
+    pub fn start(sh: &mut Shadow) -> StreamShadow {
+        let ss = StreamShadow { sfc: sh.fc, cur_size: sh.image_size(), cur_done: 0, complete: 0, total: 0, started: vec![(sh.image_size(), row_bytes(sh.color, sh.depth, sh.dims().0))] };
+        sh.header_written();
+        ss
     }
     /// `n` more bytes were accepted by the stream writer
     pub fn feed(&mut self, sh: &mut Shadow, mut n: usize) {
         self.total += n;
         while n > 0 {
             if self.cur_done == self.cur_size {
-                // new_frame
+                // new_frame: the stream writer's own frame control replaces the writer's (no-op once the
+                // animation is complete), then the header of the next image is written
                 if let Some(s) = self.sfc {
                     if sh.fc.is_some() {
                         sh.fc = Some(s);
                     }
                 }
                 self.cur_size = sh.image_size();
-                sh.bump();
+                self.started.push((self.cur_size, row_bytes(sh.color, sh.depth, sh.dims().0)));
+                sh.header_written();
                 self.cur_done = 0;
                 if self.cur_size == 0 {
                     return;
@@ -884,7 +909,7 @@ impl StreamShadow {
             n -= take;
             if self.cur_done == self.cur_size {
                 self.complete += 1;
-                sh.images_ok += 1;
+                sh.image_done();
             }
         }
     }
@@ -896,8 +921,10 @@ impl StreamShadow {
         a.feed(&mut b, 1);
         a.cur_size
     }
+    /// the session ended in the middle of an image (N10): its header and the beginning of its data are in
+    /// the file, the image is not counted.  (`new` puts the writer at the first byte of an image.)
     pub fn abandoned(&self) -> bool {
-        self.total == 0 || self.cur_done != self.cur_size
+        self.cur_done != self.cur_size
     }
 }
 
@@ -972,6 +999,10 @@ pub struct SessInfo {
     pub abandoned: bool,
     pub write_failed: bool,
     pub range: (usize, usize),
+    /// (bytes, bytes per row) of every image the session started
+    pub images: Vec<(usize, usize)>,
+    /// a `flush` call inside the session (the chunk partition depends on the compressor's timing then)
+    pub flushed: bool,
 }
 
 #[derive(Clone, Debug, Default)]
@@ -1298,6 +1329,9 @@ impl<'c> Rt<'c> {
                     Some("indexed-no-palette")
                 } else if self.sh.first_image_subframe() {
                     Some("first-image-subframe")
+                } else if self.case.cfg.val && !self.sh.accepts_image(&self.case.cfg) && !self.obs.abandoned_session() {
+                    // repaired (validate_new_image in StreamWriter::new): no session beyond the declared images
+                    Some("beyond-declared")
                 } else {
                     None
                 };
@@ -1306,8 +1340,12 @@ impl<'c> Rt<'c> {
                 match r {
                     Ok(sw) => sw,
                     Err(_) => {
-                        self.shadow_unreliable = true;
-                        info.write_failed = true;
+                        // a refusal writes nothing; anything else (sink error while the fcTL is written) leaves
+                        // the bookkeeping unreliable
+                        if self.sink.len() != start || self.sink.0.borrow().errors > errors_at_start {
+                            self.shadow_unreliable = true;
+                            info.write_failed = true;
+                        }
                         info.range = (start, self.sink.len());
                         self.obs.sessions.push(info);
                         return (out, false);
@@ -1316,7 +1354,7 @@ impl<'c> Rt<'c> {
             }
         };
         info.new_ok = true;
-        let mut ss = StreamShadow::start(&self.sh);
+        let mut ss = StreamShadow::start(&mut self.sh);
         let mut panicked = false;
         for (k, op) in sess.ops.iter().enumerate() {
             let before = self.sink.probe();
@@ -1414,6 +1452,8 @@ impl<'c> Rt<'c> {
         }
         info.complete = ss.complete;
         info.abandoned = ss.abandoned();
+        info.images = ss.started.clone();
+        info.flushed = sess.ops.iter().any(|o| matches!(o, SOp::Flush));
         info.range = (start, self.sink.len());
         self.obs.sessions.push(info);
         (out, panicked)
@@ -1622,9 +1662,17 @@ impl Observed {
             None => false,
         }
     }
-    /// the C12 oracle domain
+    /// the C12 oracle domain, re-derived from the repaired semantics (= the domain of `C12_stream_partial` plus
+    /// the abandoned sessions, which are judged under the known class `stream-abandoned/*`): header ok, no
+    /// panic, the program ends with a successful `finish` or a drop, no call inside a session failed on the
+    /// sink, and the number of COMPLETE images (`write_image_data` = Ok, or the last row of a stream image
+    /// accepted) is the declared one.  A session whose `new` is refused started nothing.
     pub fn in_domain(&self, case: &Case) -> bool {
-        self.hdr == "ok" && !self.panicked() && self.final_ok() && self.images_ok == case.cfg.declared() && !self.sessions.iter().any(|s| !s.new_ok || s.write_failed)
+        self.hdr == "ok" && !self.panicked() && self.final_ok() && self.images_ok == case.cfg.declared() && !self.sessions.iter().any(|s| s.write_failed)
+    }
+    /// the domain of `C12_stream_partial`: in the oracle domain and every session complete
+    pub fn in_theorem_domain(&self, case: &Case) -> bool {
+        self.in_domain(case) && !self.abandoned_session()
     }
 }
 
@@ -2363,47 +2411,52 @@ pub fn learn_table(case: &Case, obs: &Observed) -> Table {
             }
         }
     }
-    if !animated {
-        let rb = row_bytes(case.cfg.color, case.cfg.depth, case.cfg.w);
-        let size = rb.saturating_mul(case.cfg.h as usize);
-        for s in &obs.sessions {
-            if !s.new_ok || size == 0 {
-                continue;
-            }
-            let mut payload = vec![];
-            for c in in_range(s.range) {
+    let _ = animated;
+    for s in &obs.sessions {
+        if !s.new_ok || s.images.iter().any(|(n, _)| *n == 0) {
+            continue;
+        }
+        let mut payload = vec![];
+        for c in in_range(s.range) {
+            if &c.ty == b"fdAT" {
+                payload.extend_from_slice(&c.data[4.min(c.data.len())..]);
+            } else {
                 payload.extend_from_slice(&c.data);
             }
-            let expected = if s.accepted.is_empty() { 1 } else { (s.accepted.len() + size - 1) / size };
-            let mut zs = vec![];
-            let mut pos = 0;
-            while pos < payload.len() {
-                match zlib_inflate(&payload[pos..]) {
-                    Some((_, used)) => {
-                        zs.push(payload[pos..pos + used].to_vec());
-                        pos += used;
-                    }
-                    None => {
-                        t.incomplete = true;
-                        break;
-                    }
+        }
+        // every image the session started leaves one zlib stream (ended by `finish_image` or by the drop)
+        let expected = s.images.len();
+        let mut zs = vec![];
+        let mut pos = 0;
+        while pos < payload.len() {
+            match zlib_inflate(&payload[pos..]) {
+                Some((_, used)) => {
+                    zs.push(payload[pos..pos + used].to_vec());
+                    pos += used;
+                }
+                None => {
+                    t.incomplete = true;
+                    break;
                 }
             }
-            if zs.len() != expected {
-                t.incomplete = true;
-                continue;
-            }
-            for (j, z) in zs.into_iter().enumerate() {
-                let img = &s.accepted[(j * size).min(s.accepted.len())..((j + 1) * size).min(s.accepted.len())];
-                let mut key = vec![];
-                for row in img.chunks(rb.max(1)) {
-                    if row.len() == rb {
-                        key.push(0);
-                        key.extend_from_slice(row);
-                    }
+        }
+        if zs.len() != expected {
+            t.incomplete = true;
+            continue;
+        }
+        let mut off = 0usize;
+        for (j, z) in zs.into_iter().enumerate() {
+            let (size, rb) = s.images[j];
+            let img = &s.accepted[off.min(s.accepted.len())..(off + size).min(s.accepted.len())];
+            off += size;
+            let mut key = vec![];
+            for row in img.chunks(rb.max(1)) {
+                if row.len() == rb {
+                    key.push(0);
+                    key.extend_from_slice(row);
                 }
-                t.add(key, z);
             }
+            t.add(key, z);
         }
     }
     t
@@ -2425,6 +2478,83 @@ pub fn merged_skeleton(entries: &[(String, usize)]) -> Vec<String> {
     out.into_iter().map(|(n, l, _)| format!("{}:{}", n, l)).collect()
 }
 
+/// skeleton entries with contents: (type, length, extra); extra = hex of the whole body for fcTL / acTL (every
+/// field: sequence number, rectangle, delay, dispose_op, blend_op / frames, plays), the sequence number for fdAT
+fn model_sk_full(sk: &str) -> Vec<(String, usize, String)> {
+    if sk.is_empty() {
+        return vec![];
+    }
+    sk.split('/')
+        .map(|e| {
+            let mut p = e.split(':');
+            let n = p.next().unwrap_or("").to_string();
+            let l = p.next().and_then(|x| x.parse().ok()).unwrap_or(0);
+            let x = p.next().unwrap_or("").to_string();
+            (n, l, x)
+        })
+        .collect()
+}
+
+fn real_sk_full(bytes: &[u8]) -> Vec<(String, usize, String)> {
+    parse_lenient(bytes)
+        .0
+        .iter()
+        .map(|c| {
+            let n = c.name();
+            let x = if n == "fcTL" || n == "acTL" {
+                if c.data.is_empty() { "-".to_string() } else { hex(&c.data) }
+            } else if n == "fdAT" && c.data.len() >= 4 {
+                be32s(&c.data, 0).to_string()
+            } else {
+                String::new()
+            };
+            (n, c.data.len(), x)
+        })
+        .collect()
+}
+
+/// `exact`: every chunk with its length and contents (chunk partition and sequence numbers included).
+/// Otherwise consecutive data chunks are merged (`IDAT:<payload>` / `fdAT:<payload without sequence numbers>`;
+/// with `lengths = false` only their type is kept) and the sequence number of an fcTL is masked — the other eight
+/// fields are compared.
+fn content_skeleton(e: &[(String, usize, String)], exact: bool, lengths: bool) -> Vec<String> {
+    let mut out: Vec<String> = vec![];
+    let mut run: Option<(String, usize)> = None;
+    let flush = |run: &mut Option<(String, usize)>, out: &mut Vec<String>| {
+        if let Some((n, l)) = run.take() {
+            out.push(if lengths { format!("{}:{}", n, l) } else { n });
+        }
+    };
+    for (n, l, x) in e {
+        let data = n == "IDAT" || n == "fdAT";
+        if exact {
+            out.push(if x.is_empty() { format!("{}:{}", n, l) } else { format!("{}:{}:{}", n, l, x) });
+            continue;
+        }
+        if data {
+            let pl = if n == "fdAT" { l.saturating_sub(4) } else { *l };
+            match &mut run {
+                Some((rn, rl)) if rn == n => *rl += pl,
+                _ => {
+                    flush(&mut run, &mut out);
+                    run = Some((n.clone(), pl));
+                }
+            }
+            continue;
+        }
+        flush(&mut run, &mut out);
+        if n == "fcTL" && x.len() >= 8 {
+            out.push(format!("fcTL:{}:********{}", l, &x[8..]));
+        } else if x.is_empty() {
+            out.push(format!("{}:{}", n, l));
+        } else {
+            out.push(format!("{}:{}:{}", n, l, x));
+        }
+    }
+    flush(&mut run, &mut out);
+    out
+}
+
 fn model_sk_entries(sk: &str) -> Vec<(String, usize)> {
     if sk.is_empty() {
         return vec![];
@@ -2443,17 +2573,6 @@ fn real_sk_entries(bytes: &[u8]) -> Vec<(String, usize)> {
     parse_lenient(bytes).0.iter().map(|c| (c.name(), c.data.len())).collect()
 }
 
-fn types_merged(e: &[(String, usize)]) -> Vec<String> {
-    let mut out: Vec<String> = vec![];
-    for (n, _) in e {
-        if (n == "IDAT" || n == "fdAT") && out.last() == Some(n) {
-            continue;
-        }
-        out.push(n.clone());
-    }
-    out
-}
-
 pub type Finding = (&'static str, String, String);
 
 /// compare the real run with the model's answer according to the comparison rules
@@ -2463,7 +2582,15 @@ pub fn compare_model(case: &Case, obs: &Observed, ans: &str, table: &Table) -> (
         return (f, "skipped: call-index fault");
     }
     let stream = case.has_stream();
-    if stream && !case.sink.never_fails() {
+    // stream sessions on a failing sink: the byte offset at which the fault fires is comparable only when the
+    // moments at which chunks reach the sink do not depend on the compressor's timing: every chunk buffer holds a
+    // whole image's stream (one chunk per image, written by `finish_image`) and no session flushes
+    let faulty_stream = stream && !case.sink.never_fails();
+    if faulty_stream && !case.stream_timing_free() {
+        return (f, "skipped: stream + failing sink");
+    }
+    if faulty_stream && obs.sessions.iter().any(|s| s.new_ok && s.abandoned && !s.write_failed) {
+        // the program itself ends a session in the middle of an image: its drop flushes (sync flush, extra chunk)
         return (f, "skipped: stream + failing sink");
     }
     if table.conflict {
@@ -2479,7 +2606,16 @@ pub fn compare_model(case: &Case, obs: &Observed, ans: &str, table: &Table) -> (
     let pre = if stream { "stream" } else { "writer" };
     let mut diff = |what: &str, real: String, model: String| {
         if real != model {
-            f.push(("model", format!("{}/{}", pre, what), format!("{}: real `{}` model `{}`", what, real.chars().take(300).collect::<String>(), model.chars().take(300).collect::<String>())));
+            // long skeletons: show the first entry that differs
+            let (r, m) = if real.len() > 300 || model.len() > 300 {
+                let (re, me): (Vec<&str>, Vec<&str>) = (real.split('/').collect(), model.split('/').collect());
+                let k = re.iter().zip(me.iter()).take_while(|(a, b)| a == b).count();
+                let show = |v: &Vec<&str>| format!("entry {} of {}: …{}", k, v.len(), v[k.saturating_sub(1).min(v.len())..(k + 3).min(v.len())].join("/"));
+                (show(&re), show(&me))
+            } else {
+                (real.clone(), model.clone())
+            };
+            f.push(("model", format!("{}/{}", pre, what), format!("{}: real `{}` model `{}`", what, r.chars().take(300).collect::<String>(), m.chars().take(300).collect::<String>())));
         }
     };
     diff("hdr", obs.hdr.clone(), m.hdr.clone());
@@ -2487,7 +2623,10 @@ pub fn compare_model(case: &Case, obs: &Observed, ans: &str, table: &Table) -> (
     diff("fin", obs.fin_string(case), m.fin.clone());
     let animated = case.cfg.anim.is_some() || case.cfg.fc.is_some();
     let mode;
-    if !stream {
+    if faulty_stream {
+        diff("iend", obs.iend_attempts.to_string(), m.iend.to_string());
+        mode = "stream + failing sink (one chunk per image, no flush): results + IEND attempts";
+    } else if !stream {
         diff("iend", obs.iend_attempts.to_string(), m.iend.to_string());
         diff("n", obs.bytes.len().to_string(), m.n.to_string());
         if obs.bytes.len() == m.n {
@@ -2503,8 +2642,20 @@ pub fn compare_model(case: &Case, obs: &Observed, ans: &str, table: &Table) -> (
             mode = "stream: results + merged skeleton";
         }
     } else {
-        diff("types", types_merged(&real_sk_entries(&obs.bytes)).join("/"), types_merged(&model_sk_entries(&m.sk)).join("/"));
-        mode = "stream+animated: results + chunk types";
+        // every field of every fcTL / acTL chunk is compared (sequence number, rectangle, delay, dispose_op,
+        // blend_op): a setter value that gets lost on the way into the file is a disagreement
+        diff("iend", obs.iend_attempts.to_string(), m.iend.to_string());
+        // (a session that ends in the middle of an image is flushed by its drop)
+        let flushed = obs.sessions.iter().any(|s| s.flushed || (s.new_ok && s.abandoned));
+        let (exact, lengths) = (!table.incomplete && !flushed, !table.incomplete);
+        diff("chunks", content_skeleton(&real_sk_full(&obs.bytes), exact, lengths).join("/"), content_skeleton(&model_sk_full(&m.sk), exact, lengths).join("/"));
+        mode = if exact {
+            "stream+animated: results + every chunk (length, fcTL/acTL contents, fdAT sequence numbers)"
+        } else if lengths {
+            "stream+animated: results + merged data chunks + fcTL/acTL contents (fcTL sequence number masked: flush)"
+        } else {
+            "stream+animated: results + chunk types + fcTL/acTL contents (table incomplete)"
+        };
     }
     (f, mode)
 }
@@ -2513,21 +2664,12 @@ pub fn compare_model(case: &Case, obs: &Observed, ans: &str, table: &Table) -> (
 pub fn oracle_class(case: &Case, obs: &Observed, reason: &str) -> String {
     let stream = case.has_stream();
     let animated = case.cfg.anim.is_some() || case.cfg.fc.is_some();
-    if case.cfg.fc.is_some() {
-        format!("with-info-fctl/{}", reason)
-    } else if reason == "plte-missing" && stream {
-        "stream/indexed-no-palette".into()
-    } else if stream && animated {
-        match reason {
-            "idat-not-consecutive" => "stream-animated/second-image-idat".into(),
-            "zlib-corrupt" | "seq-number" => "stream-animated/seqno-in-idat".into(),
-            r => format!("stream-animated/{}", r),
-        }
-    } else if obs.rect_setter_before_first && (reason == "first-frame-not-canvas" || reason == "image-data-size") {
-        format!("first-image-subframe/{}", reason)
-    } else if obs.abandoned_session() {
+    let _ = (stream, animated);
+    if obs.abandoned_session() {
+        // N10 (open): a session that ends in the middle of an image leaves its chunks in the file
         format!("stream-abandoned/{}", reason)
     } else {
+        // inside the domain of C12_writer / C12_stream_partial: nothing is known to be wrong here
         format!("invalid/{}", reason)
     }
 }
@@ -2818,7 +2960,8 @@ fn pieces(rng: &mut Rng, data: &[u8], row: usize) -> Vec<Vec<u8>> {
 /// a stream session writing `n_imgs` complete images of the sizes the contract prescribes
 pub fn gen_session(rng: &mut Rng, cfg: &Cfg, sh: &mut Shadow, n_imgs: usize, fin: Fin, rect: bool) -> Session {
     let animated = cfg.anim.is_some();
-    let size = if animated { *rng.pick(&[5usize, 64, 4096]) } else { *rng.pick(&[1usize, 5, 64, 4096]) };
+    // every requested buffer size works since the repair (the crate rounds up to 5 bytes), animated or not
+    let size = *rng.pick(&[0usize, 1, 2, 3, 4, 5, 6, 64, 4096]);
     let mut ss = StreamShadow::start(sh);
     let mut ops = vec![];
     for j in 0..n_imgs {
@@ -2828,6 +2971,25 @@ pub fn gen_session(rng: &mut Rng, cfg: &Cfg, sh: &mut Shadow, n_imgs: usize, fin
                 1 => SetOp::Blend(rng.below(2) as u8),
                 _ => SetOp::Dispose(rng.below(3) as u8),
             }));
+        }
+        if animated && rng.chance(1, 2) {
+            // every non-rectangle setter of the stream writer with a non-default value (they reach the file in the
+            // fcTL of the NEXT frame the session starts; the model comparison covers every fcTL field)
+            ops.push(SOp::Set(SetOp::Delay(rng.range(1, 60000) as u16, rng.range(1, 60000) as u16)));
+            ops.push(SOp::Set(SetOp::Dispose(rng.range(1, 2) as u8)));
+            ops.push(SOp::Set(SetOp::Blend(1)));
+        }
+        if rect && animated && rng.chance(1, 3) {
+            // all four rectangle setters, in an order in which each is in bounds
+            let w = rng.range(1, cfg.w as u64) as u32;
+            let h = rng.range(1, cfg.h as u64) as u32;
+            let burst = [SetOp::ResetPos, SetOp::ResetDim, SetOp::Dim(w, h), SetOp::Pos(rng.below((cfg.w - w + 1) as u64) as u32, rng.below((cfg.h - h + 1) as u64) as u32)];
+            for o in burst {
+                if rect_set_ok(&ss.sfc, cfg.w, cfg.h, &o) {
+                    rect_apply(&mut ss.sfc, cfg.w, cfg.h, &o);
+                }
+                ops.push(SOp::Set(o));
+            }
         }
         if rect && animated && rng.chance(1, 2) {
             let o = match rng.below(4) {
@@ -2915,17 +3077,17 @@ pub fn complete_program(rng: &mut Rng, cfg: &Cfg, stream_pct: u64, origin: &str)
             steps.push(Step::Image(rng.bytes(m)));
         }
         let remaining = (declared - sh.images_ok) as usize;
-        if rng.below(100) < stream_pct && !(cfg.color == 3 && cfg.pal.is_none()) {
+        if rng.below(100) < stream_pct && !(cfg.color == 3 && cfg.pal.is_none()) && sh.accepts_image(cfg) && !sh.first_image_subframe() {
             let n = rng.usize(1, remaining.min(3));
             if n == remaining && rng.chance(1, 3) {
                 let sf = if rng.chance(3, 4) { Fin::Finish } else { Fin::Drop };
-                let rect = first_done && rng.chance(1, 3);
+                let rect = rng.chance(1, 2);
                 let s = gen_session(rng, cfg, &mut sh, n, sf, rect);
                 fin = PFinal::Into(s);
                 break;
             }
             let sf = if rng.bool() { Fin::Finish } else { Fin::Drop };
-            let rect = first_done && rng.chance(1, 3);
+            let rect = rng.chance(1, 2);
             let s = gen_session(rng, cfg, &mut sh, n, sf, rect);
             steps.push(Step::Stream(s));
         } else {
@@ -2970,10 +3132,19 @@ pub fn random_program(rng: &mut Rng, cfg: &Cfg) -> Case {
                     }
                 }
             }
-            4 if stream_ok && cfg.anim.is_none() => {
+            4 if stream_ok && sh.accepts_image(cfg) && !sh.first_image_subframe() => {
                 let k = rng.usize(1, 2);
                 let sf = if rng.bool() { Fin::Finish } else { Fin::Drop };
-                let s = gen_session(rng, cfg, &mut sh, k, sf, false);
+                let rect = rng.chance(1, 2);
+                let mut s = gen_session(rng, cfg, &mut sh, k, sf, rect);
+                if rng.chance(1, 10) {
+                    // end the session in the middle of an image (N10): drop the tail of the last write
+                    if let Some(SOp::Write(d)) = s.ops.iter_mut().rev().find(|o| matches!(o, SOp::Write(_))) {
+                        if d.len() > 1 {
+                            d.truncate(d.len() / 2);
+                        }
+                    }
+                }
                 steps.push(Step::Stream(s));
                 first_done = true;
             }
@@ -3014,21 +3185,21 @@ pub fn exhaustive_case(cfg: &Cfg, seq: &[u8], fin_kind: u8) -> Option<Case> {
                 steps.push(Step::Set(o));
             }
             _ => {
-                let mut ss = StreamShadow::start(&sh);
-                let n = ss.cur_size;
-                steps.push(Step::Stream(Session { size: 64, ops: vec![SOp::Write(fill(n, k + 1))], fin: Fin::Finish }));
-                ss.feed(&mut sh, n);
-                first_done = true;
+                let n = sh.image_size();
+                steps.push(Step::Stream(Session { size: [64usize, 0, 3][k % 3], ops: vec![SOp::Write(fill(n, k + 1))], fin: Fin::Finish }));
+                if sh.accepts_image(cfg) && !sh.first_image_subframe() {
+                    // (otherwise `new` refuses: nothing happens)
+                    let mut ss = StreamShadow::start(&mut sh);
+                    ss.feed(&mut sh, n);
+                    first_done = true;
+                }
             }
         }
     }
     let fin = match fin_kind {
         0 => PFinal::Finish,
         1 => PFinal::Drop,
-        _ => {
-            let ss = StreamShadow::start(&sh);
-            PFinal::Into(Session { size: 64, ops: vec![SOp::Write(fill(ss.cur_size, 9))], fin: Fin::Finish })
-        }
+        _ => PFinal::Into(Session { size: 64, ops: vec![SOp::Write(fill(sh.image_size(), 9))], fin: Fin::Finish }),
     };
     Some(Case { cfg: cfg.clone(), sink: SinkSpec::default(), steps, fin, origin: "exhaustive".into() })
 }
@@ -3178,6 +3349,22 @@ fn abandoned_session_cases(rng: &mut Rng) -> Vec<Case> {
             out.push(Case { cfg: cfg.clone(), sink: SinkSpec::default(), steps: vec![img.clone(), Step::Stream(sess.clone())], fin: PFinal::Finish, origin: "abandoned-session".into() });
             out.push(Case { cfg, sink: SinkSpec::default(), steps: vec![img], fin: PFinal::Into(sess), origin: "abandoned-session".into() });
         }
+        // animated: frame 1, an abandoned session (its fcTL counts as a frame, its image does not), frame 2
+        for (k, size) in [(0usize, 64usize), (1, 0), (2, 5)] {
+            let cfg = Cfg { w: 2, h: 2, color: 0, depth: 8, anim: Some((2, 0)), val, comp: 2, filt: 0, ..Default::default() };
+            let ops = match k {
+                0 => vec![],
+                1 => vec![SOp::Write(vec![1, 2])],
+                _ => vec![SOp::Write(vec![1, 2, 3]), SOp::Flush],
+            };
+            for sf in [Fin::Drop, Fin::Finish] {
+                let sess = Session { size, ops: ops.clone(), fin: sf };
+                out.push(Case { cfg: cfg.clone(), sink: SinkSpec::default(), steps: vec![Step::Image(rng.bytes(4)), Step::Stream(sess.clone()), Step::Image(rng.bytes(4))], fin: PFinal::Finish, origin: "abandoned-session".into() });
+                // two complete images through a session, the image through write_image_data, then a partial third one
+                let two = Session { size: 64, ops: vec![SOp::Write(rng.bytes(4))], fin: Fin::Finish };
+                out.push(Case { cfg: cfg.clone(), sink: SinkSpec::default(), steps: vec![Step::Stream(two), Step::Image(rng.bytes(4)), Step::Set(SetOp::Dim(1, 1)), Step::Stream(Session { size: 64, ops: vec![SOp::Write(vec![0x41])], fin: sf })], fin: PFinal::Finish, origin: "abandoned-session".into() });
+            }
+        }
     }
     out
 }
@@ -3210,7 +3397,8 @@ fn all_cases(ctx: &mut Ctx) -> Vec<Case> {
                         c.anim = Some((rng.range(1, 5) as u32, rng.below(2) as u32));
                         c.sep = rng.chance(1, 3);
                     }
-                    cases.push(complete_program(&mut rng, &c, if path == 1 { 100 } else { 0 }, "grid"));
+                    let pct = if path == 1 { 100 } else if path == 2 { *rng.pick(&[0u64, 50, 100]) } else { 0 };
+                    cases.push(complete_program(&mut rng, &c, pct, "grid"));
                 }
             }
         }
@@ -3245,7 +3433,7 @@ fn all_cases(ctx: &mut Ctx) -> Vec<Case> {
     let n = ctx.n(1800, 30000);
     for _ in 0..n {
         let c = rand_cfg(&mut rng);
-        let pct = if c.anim.is_some() { if rng.chance(1, 8) { 50 } else { 0 } } else { *rng.pick(&[0u64, 0, 30, 100]) };
+        let pct = if c.anim.is_some() { *rng.pick(&[0u64, 30, 60, 100]) } else { *rng.pick(&[0u64, 0, 30, 100]) };
         cases.push(complete_program(&mut rng, &c, pct, "random-complete"));
     }
     // random sequences
@@ -3324,7 +3512,7 @@ fn mutate(rng: &mut Rng, file: &[u8]) -> (String, Vec<u8>) {
             cs[i].crc_override = Some(good ^ (1 << rng.below(32)));
         }
         4 => {
-            let v: Vec<usize> = cs.iter().enumerate().filter(|(_, c)| &c.ty == b"fcTL" || &c.ty == b"fdAT").map(|(i, _)| i).collect();
+            let v: Vec<usize> = cs.iter().enumerate().filter(|(_, c)| (&c.ty == b"fcTL" || &c.ty == b"fdAT") && c.data.len() >= 4).map(|(i, _)| i).collect();
             if v.is_empty() {
                 label = "append".to_string();
                 let mut b = refpng::serialize(&cs);
@@ -3704,13 +3892,15 @@ pub fn run(ctx: &mut Ctx) {
     ctx.rep.rule = "real Encoder/Writer/StreamWriter driven by textual programs on never-failing sinks: (a) 15 colour/depth pairs x {whole image, stream writer, animated} x 5 compression settings \
         (NoCompression, FdeflateUltraFast, Level 1/6/9) x 6 filter settings on 1..5 x 1..5 canvases; (b) every metadata item (pHYs, gAMA, cHRM, sRGB, sRGB + substitute gAMA/cHRM, sRGB + other gAMA/cHRM, iCCP, eXIf, \
         tEXt, zTXt, iTXt, tRNS, PLTE for RGB) alone and combined x 4 colour types x animated or not; (c) random configurations (sizes up to 40x40 and 300x2, legal palette / tRNS, 1..5 frames, sep_def_img, validate on/off) \
-        with complete programs (image per declared frame through write_image_data or stream sessions of buffer size {1 (non-animated only), 5, 64, 4096} written in random pieces with flushes, \
+        with complete programs (image per declared frame through write_image_data or stream sessions — animated or not — of requested buffer size {0,1,2,3,4,5,6,64,4096} written in random pieces with flushes, with every setter of the stream writer \
+        (delay, dispose, blend with non-default values; reset/dimension/position) between the frames, \
         decorated with private chunks, text chunks incl. refused keywords, delay/blend/dispose and in-range / out-of-range / zero frame-rectangle setters after the first image, wrong-size images; finish, drop or into_stream_writer); \
         (d) random sequences of up to 30 operations; (e) all sequences up to length 4 (quick) / 5 (thorough) over {image, wrong-size image, private chunk, delay, dimension 1x1, stream image} on a 2x2 gray8 canvas \
         for {still, 2 frames, 2 frames + sep_def_img} x validate on/off x {finish, drop, into_stream_writer}; (f) directed: with_info frame controls that do not fit, setters before the first image, abandoned stream sessions, \
         indexed without palette, extreme dimensions; (g) mutants of valid outputs (delete/duplicate/swap/move/insert chunks, CRC, sequence numbers, truncation, trailing bytes, filter bytes, IHDR fields, type bits, \
-        length fields, zlib bytes, fcTL/acTL fields) for both validators.  Every run: Rust validator (oracle, in-domain runs), `c12 validate` (must agree), `c12 run` (results and bytes / skeleton). \
-        non-trivial = in the oracle domain (header ok, ends with a successful finish or a drop, successful image writes = declared) with at least one image operation; distinct = hash of the program text".into();
+        length fields, zlib bytes, fcTL/acTL fields) for both validators.  Every run: Rust validator (oracle, in-domain runs), `c12 validate` (must agree), `c12 run` (whole-image programs: results and bytes; programs with stream sessions: results and \
+        every chunk with its length, every field of every fcTL / acTL chunk and the fdAT sequence numbers — with a flush inside a session the data chunks are merged and the fcTL sequence number is masked). \
+        non-trivial = in the oracle domain (header ok, ends with a successful finish or a drop, no sink failure, complete images = declared; a program with a session that ends in the middle of an image is judged under the known class stream-abandoned/*) with at least one image operation; distinct = hash of the program text".into();
     let cases = match guarded(|| all_cases(ctx)) {
         Ok(c) => c,
         Err(p) => {
